@@ -107,6 +107,23 @@ Theorem C13_incoming_only_deputy :
 Proof. exact create_roles. Qed.
 Print Assumptions C13_incoming_only_deputy.
 
+(* the expiry height of a created swap never wraps around uint64 (a height span that would
+   overflow is refused — keeper/swap.go after the fix; before it an incoming swap could be
+   stored with expiry height 0, which genesis validation rejects) *)
+Theorem C13_create_expiry_never_wraps :
+  forall e s h ts span sender recip soc coins cross s',
+  create e s h ts span sender recip soc coins cross = Ok s' tt ->
+  s_height s + span <= U64 - 1.
+Proof. exact create_expiry_no_wrap. Qed.
+Print Assumptions C13_create_expiry_never_wraps.
+
+Theorem C13_create_wrapping_span_refused :
+  forall e s h ts span sender recip soc coins cross,
+  U64 - 1 < s_height s + span ->
+  create e s h ts span sender recip soc coins cross = Err.
+Proof. exact create_wrapping_span_refused. Qed.
+Print Assumptions C13_create_wrapping_span_refused.
+
 Theorem C13_stored_swap_roles :
   forall e s i w, Inv e s -> lookup i (s_swaps s) = Some w ->
   i = sw_id w /\ 0 < sw_amt w /\
